@@ -663,6 +663,7 @@ func ruleA24(r *Run, p *Prog) {
 		}
 		// guards at the construction site
 		guards := map[string]bool{}
+		var guardTypes []types.Type
 		nCons := 0
 		ww := p.View(ww, "", nil)
 		eachInstr(ww, func(b *ssa.BasicBlock, i int, in ssa.Instruction) {
@@ -683,6 +684,7 @@ func ruleA24(r *Run, p *Prog) {
 				bv, isB := constBool(c.Y)
 				if isB && ((c.Op == token.EQL && bv) || (c.Op == token.NEQ && !bv)) && isParam(ta.X, ww, 0) {
 					guards[types.TypeString(ta.AssertedType, shortQual)] = true
+					guardTypes = append(guardTypes, ta.AssertedType)
 				}
 			}
 		})
@@ -702,6 +704,14 @@ func ruleA24(r *Run, p *Prog) {
 				}
 				it := types.TypeString(ta.AssertedType, shortQual)
 				okc := guards[it] && nCons > 0
+				// a guard on a wider interface (one that embeds the asserted one) covers it too
+				if want, isI := ta.AssertedType.Underlying().(*types.Interface); isI && !okc && nCons > 0 {
+					for _, g := range guardTypes {
+						if gi, ok := g.Underlying().(*types.Interface); ok && types.Implements(gi, want) {
+							okc = true
+						}
+					}
+				}
 				r.Ob("A24", FnName(m)+"/assert:"+it, p.Pos(ta.Pos()), okc, true, tern(okc, tn+" is only constructed when the writer implements "+it, "unchecked assertion to "+it+" in "+FnName(m)+", but WrapWriter constructs "+tn+" without having checked that capability: the call panics for writers that lack it"))
 			})
 		}
